@@ -519,7 +519,32 @@ class _AcceptPolicy(paramiko.MissingHostKeyPolicy):
         self.snap()
 
 
-def connect_c(cfg, policy, store, tmpdir, gss="none"):
+HOWS = ("password", "pkey", "auth-strategy")
+PRIORS = ("fresh", "after-connect-to-other-host")
+OTHER_HOST = "other.test"
+
+
+def make_strategy():
+    from paramiko.auth_strategy import AuthStrategy, Password
+
+    class OnePassword(AuthStrategy):
+        def get_sources(self):
+            yield Password(username="alice", password_getter=lambda: SECRET)
+    return OnePassword(ssh_config=paramiko.SSHConfig())
+
+
+def cred_kwargs(how):
+    """How the application hands its credential to SSHClient.connect."""
+    if how == "password":
+        return {"username": "alice", "password": SECRET}
+    if how == "pkey":
+        return {"username": "alice", "pkey": F.key("ecdsa-256")}
+    if how == "auth-strategy":
+        return {"auth_strategy": make_strategy()}
+    raise ValueError(how)
+
+
+def connect_c(cfg, policy, store, tmpdir, gss="none", how="password", prior="fresh"):
     label, keyset, port, text = cfg
     out = {}
     hold = {}
@@ -549,13 +574,39 @@ def connect_c(cfg, policy, store, tmpdir, gss="none"):
                "warning": paramiko.WarningPolicy}.get(policy)
         cl.set_missing_host_key_policy(pol() if pol else
                                        (_RaisePolicy(snap) if policy == "custom-raise" else _AcceptPolicy(snap)))
+        if prior == "after-connect-to-other-host":
+            # history of the SSHClient object: it was used for a connection to ANOTHER host (default port, server
+            # key "ed25519") before; whatever that connection's fate under the policy, it is closed again.
+            # Judged like the main connection (host other.test against the same known_hosts text).
+            sc0, ss0 = vsocket.pair("c0", "s0")
+            srv0 = make_server()
+            ts0 = Transport(ss0, packetizer_class=F.RecPacketizer)
+            ts0.add_server_key(getkey("ed25519"))
+            ts0.start_server(paramiko.transport.threading.Event(), srv0)
+            try:
+                with warnings.catch_warnings():
+                    warnings.simplefilter("ignore")
+                    cl.connect(OTHER_HOST, port=22, sock=sc0, allow_agent=False, look_for_keys=False,
+                               auth_timeout=3, transport_factory=lambda sock, **kw: Transport(
+                                   sock, packetizer_class=F.RecPacketizer, **kw), **cred_kwargs(how))
+                out["prior_result"] = ("ok",)
+            except Exception as e:
+                out["prior_result"] = ("exc", type(e).__name__, str(e)[:80])
+            s.quiesce()
+            out["prior_server_auth_log"] = [e[0] for e in srv0.log if is_auth_entry(e)]
+            out["prior_server_rcvd_auth_types"] = [t for t, _, _ in ts0.packetizer.rcvd if t in AUTH_TYPES]
+            del snaps[:]
+            cl.close()
+            ts0.close()
+            s.quiesce()
         try:
             with warnings.catch_warnings():
                 warnings.simplefilter("ignore")
-                cl.connect(HOST, port=port, username="alice", password=SECRET, sock=sc,
+                cl.connect(HOST, port=port, sock=sc,
                            allow_agent=False, look_for_keys=False, auth_timeout=3,
                            transport_factory=lambda sock, **kw: Transport(
-                               sock, packetizer_class=F.RecPacketizer, **kw), **gss_kwargs(gss))
+                               sock, packetizer_class=F.RecPacketizer, **kw),
+                           **dict(gss_kwargs(gss), **cred_kwargs(how)))
             out["result"] = ("ok",)
         except Exception as e:
             out["result"] = ("exc", type(e).__name__, str(e)[:80])
@@ -589,9 +640,13 @@ def connect_c(cfg, policy, store, tmpdir, gss="none"):
 
 
 def judge_c(case, o):
-    cfg, policy, store, gss = case
+    cfg, policy, store, gss, how, prior = case
     label, keyset, port, text = cfg
     sfx = "" if gss == "none" else ":" + gss
+    if how != "password":
+        sfx += ":credential=" + how
+    if prior != "fresh":
+        sfx += ":client-used-before"
     if o["outcome"] != "ok":
         return [("C:no-quiescence(%s)%s" % (o["outcome"], sfx), o["error"])], "?"
     if o.get("gss_kex_used"):
@@ -608,11 +663,25 @@ def judge_c(case, o):
     if not accepted:
         if got_creds:
             v.append(("C:credentials-sent-to-unaccepted-server:%s:policy=%s%s" % (why, pol, sfx),
-                      {"config": label, "store": store, "gss": gss, "server_log": o["server_auth_log"],
+                      {"config": label, "store": store, "gss": gss, "credential": how, "client_history": prior,
+                       "server_log": o["server_auth_log"],
                        "server_rcvd": o["server_rcvd_auth_types"], "result": o["result"]}))
         elif o["result"][0] == "ok":
             v.append(("C:connect-did-not-raise:%s:policy=%s%s" % (why, pol, sfx),
-                      {"config": label, "store": store, "gss": gss}))
+                      {"config": label, "store": store, "gss": gss, "credential": how, "client_history": prior}))
+    if "prior_result" in o:
+        # the earlier connection of the same SSHClient (to other.test:22, server key "ed25519") is a connection
+        # like any other: same reference, same demand
+        k0 = getkey("ed25519")
+        acc0, why0 = H.accepts(text, OTHER_HOST, 22, policy, k0.get_name(), k0.get_base64())
+        o["prior_ref"] = (acc0, why0)
+        if not acc0 and (o["prior_server_auth_log"] or o["prior_server_rcvd_auth_types"]):
+            sfx0 = sfx.replace(":client-used-before", "")
+            v.append(("C:credentials-sent-to-unaccepted-server:%s:policy=%s%s"
+                      % (why0, policy if why0 == "unknown-host" else "-", sfx0),
+                      {"config": label, "store": store, "gss": gss, "credential": how, "connection": "earlier one "
+                       "(other.test)", "server_log": o["prior_server_auth_log"],
+                       "server_rcvd": o["prior_server_rcvd_auth_types"], "result": o["prior_result"]}))
     for types, log in o["policy_snapshots"]:
         if types or log:
             v.append(("C:server-received-auth-before-policy-decided:policy=%s%s" % (policy, sfx),
@@ -667,13 +736,19 @@ def run_items(item, acc):
                                 "server_rcvd_auth_types": o["server_rcvd_auth_types"]})
                 rep = {"part": "B", "case": list(case)}
             else:
-                cfg, policy, store, gss = case
-                o = connect_c(cfg, policy, store, _TMP[0], gss)
+                cfg, policy, store, gss, how, prior = case
+                o = connect_c(cfg, policy, store, _TMP[0], gss, how, prior)
                 vs, why = judge_c(case, o)
-                acc.nt(("C", cfg[0], policy, store, gss))
+                acc.nt(("C", cfg[0], policy, store, gss, how, prior))
                 acc.count("C_ref_" + why)
                 if gss != "none":
                     acc.count("C_" + gss)
+                if how != "password":
+                    acc.count("C_credential_" + how)
+                if prior != "fresh":
+                    acc.count("C_" + prior)
+                    if o.get("prior_server_auth_log"):
+                        acc.count("C_earlier_connection_delivered_credentials")
                 if o.get("ref", (False,))[0]:
                     acc.count("C_ref_accepts")
                     if o.get("server_auth_log"):
@@ -687,9 +762,10 @@ def run_items(item, acc):
                 if not vs and cfg[0] in ("hashed-different-key", "default-port-entry-only-while-port-2222") \
                         and policy == "reject" and store == "host_keys" and gss != "gss-auth-requested":
                     acc.sample({"part": "C", "known_hosts": cfg[0], "port": cfg[2], "policy": policy,
-                                "store": store, "gss_option": gss, "reference": o.get("ref"), "api_result": o.get("result"),
+                                "store": store, "gss_option": gss, "credential": how, "client_history": prior,
+                                "reference": o.get("ref"), "api_result": o.get("result"),
                                 "server_auth_callbacks": o.get("server_auth_log")})
-                rep = {"part": "C", "case": [cfg[0], policy, store, gss]}
+                rep = {"part": "C", "case": [cfg[0], policy, store, gss, how, prior]}
             for key, detail in vs:
                 acc.violation(key, {"case": rep["case"], "detail": detail}, rep)
     finally:
@@ -715,7 +791,13 @@ def build_items(tier):
                     # quick: the GSS-API option is crossed with one store only
                     if gss != "none" and tier == "quick" and store != "host_keys":
                         continue
-                    items.append(("C", (cfg, pol, store, gss)))
+                    for how in HOWS:
+                        for prior in PRIORS:
+                            if tier == "quick" and (gss != "none") + (how != "password") + (prior != "fresh") > 1:
+                                # quick: the three option dimensions (GSS-API option, credential source, client
+                                # history) are varied one at a time; thorough: full cross product
+                                continue
+                            items.append(("C", (cfg, pol, store, gss, how, prior)))
     return items
 
 
@@ -756,8 +838,10 @@ def replay(rec):
         else:
             cfg = [c for c in kh_configs() if c[0] == r["case"][0]][0]
             gss = r["case"][3] if len(r["case"]) > 3 else "none"
-            case = (cfg, r["case"][1], r["case"][2], gss)
-            o = connect_c(cfg, r["case"][1], r["case"][2], tmp, gss)
+            how = r["case"][4] if len(r["case"]) > 4 else "password"
+            prior = r["case"][5] if len(r["case"]) > 5 else "fresh"
+            case = (cfg, r["case"][1], r["case"][2], gss, how, prior)
+            o = connect_c(cfg, r["case"][1], r["case"][2], tmp, gss, how, prior)
             vs = judge_c(case, o)[0]
     finally:
         shutil.rmtree(tmp, ignore_errors=True)
